@@ -17,7 +17,7 @@ func TestMain(m *testing.M) {
 		// half of the run on a loaded machine
 		debug.SetGCPercent(800)
 	}
-	kit.TestMain(m, 2500, 25000)
+	kit.TestMain(m, 8000, 150000)
 }
 
 // v is a selector that resolves to the valid index k (k < size), n to the size itself (see (*exec).sel).
